@@ -79,6 +79,16 @@ class ClassFolder:
         self.extra_hook = extra_hook
         self.depth = 0
         self.files = None        # name -> bytearray written through open(name, 'wb') when set to a dict
+        self.modglobals = {}     # module -> {name: value} for names a folded function declared `global` and assigned
+        self.override_names = set(getattr(extra_hook, 'override_names', ()))
+
+    def sibling(self, modname):
+        """Folder for another module sharing this one's hook, model files and module globals."""
+        if modname == self.modname:
+            return self
+        o = ClassFolder(self.repo, modname, self.extra_hook)
+        o.files, o.modglobals, o.override_names, o.depth = self.files, self.modglobals, self.override_names, self.depth
+        return o
 
     # class helpers
     def bases(self, clsname):
@@ -110,6 +120,9 @@ class ClassFolder:
                 if v is not None:
                     return v
             if isinstance(n, ast.Name):
+                if n.id in self.modglobals.get(self.modname, {}):
+                    v = self.modglobals[self.modname][n.id]
+                    return FOLDED_NONE if v is None else v
                 if n.id in self.mod.classes:
                     return ('cls', n.id)
                 if n.id in self.mod.funcs:
@@ -134,7 +147,7 @@ class ClassFolder:
                 except NotLiteral:
                     return None
                 if isinstance(base, Inst) and n.attr not in vars(base):
-                    folder = self if base._mod == self.modname else ClassFolder(self.repo, base._mod, self.extra_hook)
+                    folder = self.sibling(base._mod)
                     c, m = folder.find_method(base._cls, n.attr)
                     if m is not None:
                         if any(isinstance(d, ast.Name) and d.id == 'property' for d in m.decorator_list):
@@ -147,7 +160,7 @@ class ClassFolder:
                 if isinstance(fn, ast.Name) and fn.id == 'hasattr' and len(n.args) == 2:
                     obj, name = lit.ev(n.args[0]), lit.ev(n.args[1])
                     if isinstance(obj, Inst):
-                        folder = self if obj._mod == self.modname else ClassFolder(self.repo, obj._mod, self.extra_hook)
+                        folder = self.sibling(obj._mod)
                         return hasattr(obj, name) or folder.find_method(obj._cls, name)[1] is not None
                     return hasattr(obj, name)
                 if isinstance(fn, ast.Name) and fn.id == 'partial' and fn.id not in lit.env and n.args:
@@ -193,14 +206,13 @@ class ClassFolder:
                             self.call_method(inst, c, m, lit._seq(n.args), {k.arg: lit.ev(k.value) for k in n.keywords if k.arg})
                         return inst
                     if isinstance(target, tuple) and target and target[0] == 'clsx':
-                        other = ClassFolder(self.repo, target[1], self.extra_hook)
-                        other.files = self.files
+                        other = self.sibling(target[1])
                         return other.new(target[2], *lit._seq(n.args), **{k.arg: lit.ev(k.value) for k in n.keywords if k.arg})
                     if isinstance(target, tuple) and target and target[0] == 'f':
                         r = self.call_func(self.modname, target[1], lit._seq(n.args), {k.arg: lit.ev(k.value) for k in n.keywords if k.arg})
                         return FOLDED_NONE if r is None else r
                     if isinstance(target, tuple) and target and target[0] == 'fx':
-                        r = ClassFolder(self.repo, target[1], self.extra_hook).call_func(target[1], target[2], lit._seq(n.args), {k.arg: lit.ev(k.value) for k in n.keywords if k.arg})
+                        r = self.sibling(target[1]).call_func(target[1], target[2], lit._seq(n.args), {k.arg: lit.ev(k.value) for k in n.keywords if k.arg})
                         return FOLDED_NONE if r is None else r
                 if isinstance(fn, ast.Attribute):
                     try:
@@ -208,7 +220,7 @@ class ClassFolder:
                     except NotLiteral:
                         obj = None
                     if isinstance(obj, Inst):
-                        folder = self if obj._mod == self.modname else ClassFolder(self.repo, obj._mod, self.extra_hook)
+                        folder = self.sibling(obj._mod)
                         c, m = folder.find_method(obj._cls, fn.attr)
                         if m is not None:
                             r = folder.call_method(obj, c, m, lit._seq(n.args), {k.arg: lit.ev(k.value) for k in n.keywords if k.arg})
@@ -233,7 +245,8 @@ class ClassFolder:
                     return FOLDED_NONE if r is None else r
             return None
         f.wants_lit = True
-        f.override_names = getattr(self.extra_hook, 'override_names', ())
+        f.override_names = self.override_names
+        f.modglobals = self.modglobals
         return f
 
     def _run(self, fn, params, args, kw, cls, self_obj):
@@ -264,7 +277,7 @@ class ClassFolder:
 
     def call_func(self, modname, name, args, kw=None):
         fn = self.repo.mod(modname).funcs[name]
-        folder = self if modname == self.modname else ClassFolder(self.repo, modname, self.extra_hook)
+        folder = self.sibling(modname)
         return folder._run(fn, [a.arg for a in fn.args.args], list(args), kw or {}, None, None)
 
     def new(self, clsname, *args, **kw):
